@@ -5,7 +5,6 @@ from vlib import core, runner
 from .base import StdCheck
 
 SHADOW = ("host", "service")
-DATA_FOR = ("arr", "dict", "mix", "harr", "hdict", "hmix")
 API_BOUND = ("obj", "host", "service", "check_command", "check_period", "event_command", "command_endpoint")
 
 
@@ -39,7 +38,7 @@ class C16(StdCheck):
     max_shrunk = 3
     required_theorems = ["target_hosts_sound_complete", "target_services_sound_complete", "indexed_eq_plain_partial",
                          "indexed_eq_plain_counterexample_shadow", "indexed_eq_plain_counterexample_forkind",
-                         "indexSafe_of_no_for", "apply_exactly_matching", "order_independent",
+                         "indexSafe_of_no_for", "indexed_eq_plain_without_for", "apply_exactly_matching", "order_independent",
                          "api_fast_path_eq_plain_partial", "api_fast_path_counterexample_shadowed_constant"]
     technique = ("Lean 4 proof (soundness/completeness of the filter-shape recogniser by induction on the recognised shape; refinement "
                  "'indexed = plain' as sets via a per-(rule,target) equivalence of outcomes; set comprehension characterisation of plain "
@@ -96,7 +95,7 @@ class C16(StdCheck):
             rs = [r for r in map(_rule_fields, case) if r]
             if any(_shadowing(r) for r in rs):
                 return "loopvar"
-            if any(r["for"] in DATA_FOR for r in rs):
+            if any(r["for"] != "-" for r in rs):
                 return "forkind"
         if clause == "api_fastpath_independent":
             if any(k in API_BOUND for l in case for k in _fv_keys(l)):
@@ -187,7 +186,9 @@ class C16(StdCheck):
                 return False
             if c == "c16_loopvar_shadows_target":
                 return _shadowing(r)
-            return (not _shadowing(r)) and r["for"] in DATA_FOR
+            # not shadowing + the model (which diverges only when IndexSafe fails, proved) predicts the divergence
+            # => the `for` value has the wrong kind on a target the filter does not name
+            return (not _shadowing(r)) and r["for"] != "-"
         if c == "c16_filter_var_shadowed_by_target":
             if cl != "api_fastpath_independent":
                 return False
